@@ -103,3 +103,23 @@ func zzC19ToWireError() {
 }
 
 var _ = json.RawMessage(nil)
+
+// Decoding is case-sensitive: a text whose member names differ from the envelope's only in letter case ("Method",
+// "JSONRPC", "ID") is not the message it resembles. The JSON text layer is a token; the token carries the fact that
+// its names are miscased, the repo's case-sensitive decoder matches none of them and encoding/json's default
+// matching fills the fields — so the harness observes which decoder DecodeMessage hands the text to.
+func zzC19CaseSensitive() {
+	var w wireDecode
+	w.VersionTag = wireVersion
+	kind := vChoice("kind", 2)
+	if kind == 0 {
+		zzSetWireID(&w, vInt("id"))
+		w.Method = vJSON("tools/call")
+	} else {
+		zzSetWireStringID(&w, "x")
+		w.Result = vJSON("r")
+	}
+	msg, err := DecodeMessage(vJSONMiscased(w))
+	vAssert(err != nil && msg == nil, "C19.case.miscased-envelope-rejected")
+	vReach("end")
+}
